@@ -923,7 +923,27 @@ def b_abs(I, v):
     return abs(v)
 
 
+def _sym_rows_bool(I, xs, kind):
+    """all()/any() of a tensor with a symbolic number of one-element rows: the exact quantifier-free encoding of
+    torchlib.reduce_bool_symbolic (implication schema + Skolem witness)"""
+    from .tlib import Tensor, ew1
+    from . import torchlib
+
+    if not isinstance(xs, Tensor) or xs.val.rank == 0 or xs.val.shape[0].concrete() is not None:
+        return None
+    v = xs.val
+    if any(d.concrete() != 1 for d in v.shape[1:]):
+        return None
+    if v.dtype != "bool":
+        v = ew1(v, lambda x: core.zreal(x) != 0, "bool")
+    r = torchlib.reduce_bool_symbolic(I, v, list(range(v.rank)), False, kind)
+    return Sym(r.at([]), "bool")
+
+
 def b_all(I, xs):
+    r = _sym_rows_bool(I, xs, "all")
+    if r is not None:
+        return r
     for x in I.iterate(xs):
         if not I.truth(x):
             return False
@@ -931,6 +951,9 @@ def b_all(I, xs):
 
 
 def b_any(I, xs):
+    r = _sym_rows_bool(I, xs, "any")
+    if r is not None:
+        return r
     for x in I.iterate(xs):
         if I.truth(x):
             return True
